@@ -155,7 +155,7 @@ def run(ctx):
     thorough = ctx["tier"] == "thorough"
     viol, corr = [], []
     import regress
-    for name, r in regress.run(["golomb_own_consistency_enumeration"]).items():
+    for name, r in regress.run(["golomb_own_consistency_enumeration", "golomb_two_marks_symmetry_breaking"]).items():
         report.cov["evaluations"] += 1
         report.count("corpus", name)
         if not r["ok"]:
@@ -203,7 +203,7 @@ def run(ctx):
     if thorough:
         inst.append(("sudoku", [x for r_ in SUDOKU for x in r_], SudokuProblem(SUDOKU), lambda s: v_sudoku(SUDOKU, s), 1))
     inst.append(("magic_square", [4, 1], MagicSquareProblem(4, True), None, None))   # constructor only (880 squares: thorough tier of C02)
-    for n in ([3, 5] if not thorough else [3, 4, 5, 6, 7]):
+    for n in ([2, 3, 5] if not thorough else [2, 3, 4, 5, 6, 7]):
         for sb in (0, 1):
             inst.append(("golomb", [n, sb], GolombProblem(n, bool(sb)), None, None))
     for n in (6, 8):
